@@ -100,10 +100,10 @@ NODE = 5
 
 TRANSPORTS = {
     # name: (layouts, tpdo transmission type, rpdo transmission type, thread)
-    "sdo": (["none"], 255, 255, None),
+    "sdo": (["none", "G"], 255, 255, None),
     "cw": (["CW"], 255, 255, None),
     "sw": (["SW"], 255, 255, None),
-    "ev": (["A", "B", "C", "D", "E", "F"], 255, 255, None),
+    "ev": (["A", "B", "C", "D", "E", "F", "H"], 255, 255, None),
     "cyc": (["A", "B", "C", "D"], 1, 255, "lockstep"),
     "cycr": (["A", "B", "C", "D"], 1, 1, "lockstep"),
     "free": (["A", "B", "C", "D"], 255, 255, "free"),
@@ -171,7 +171,7 @@ class Rig:
             node.TIMEOUT_CHECK_TPDO = 0.001
             node.TIMEOUT_SWITCH_OP_MODE = 0.05
         node.nmt.state = "OPERATIONAL"
-        if case.get("setup", "read") == "read" or layout in ("E", "F"):
+        if case.get("setup", "read") == "read" or layout in ("E", "F", "G", "H"):
             try:
                 node.setup_402_state_machine(read_pdos=True)
             except Exception as e:
@@ -388,6 +388,8 @@ def _decode_rig(via):
     if rig is None:
         if via == "sdo":
             rig = Rig({"tr": "sdo", "od_pdo": False}, force_sw=0)
+        elif via == "sdoG":
+            rig = Rig({"tr": "sdo", "layout": "G"}, force_sw=0)
         else:
             rig = Rig({"tr": "ev", "layout": {"tpdo0": "A", "tpdo1": "C", "tpdo4": "D"}[via],
                        "setup": "manual" if via == "tpdo1" else "read"})
@@ -400,7 +402,7 @@ def run_decode(case):
     want = R.decode_state(sw)
     rig = _decode_rig(via)
     D = []
-    if via == "sdo":
+    if via in ("sdo", "sdoG"):
         rig.drive.force_sw = sw
     else:
         n, prefix = {"tpdo0": (1, b""), "tpdo1": (1, b"\x07"), "tpdo4": (3, b"\x11\x22\x33\x44")}[via]
@@ -612,7 +614,7 @@ def pair_cases(tier):
 
 
 def decode_cases(tier):
-    vias = ["tpdo0", "sdo", "tpdo1", "tpdo4"]
+    vias = ["tpdo0", "sdo", "tpdo1", "tpdo4", "sdoG"]
     for sw in range(65536):
         if tier == "thorough":
             for via in vias:
@@ -622,7 +624,7 @@ def decode_cases(tier):
             # every low byte with three high bytes, plus a sparse sweep, over the other carriers
             hi = sw >> 8
             if hi in (0x00, 0xFF, 0x52) or sw % 7 == 0:
-                yield {"fam": "decode", "sw": sw, "via": vias[1 + (sw + hi) % 3]}
+                yield {"fam": "decode", "sw": sw, "via": vias[1 + (sw + hi) % 4]}
 
 
 def _upper_bits(mode_i, low):
